@@ -339,3 +339,39 @@ def redefined_between(fn, vid, pos_a, pos_b, pos):
         if pd[0] not in (pos_a[0], pos_b[0]) and pd[0] in block_reach(fn, pos_a[0]) and pos_b[0] in block_reach(fn, pd[0]):
             return True
     return False
+
+
+def reach_without(fn, src, dst, kills):
+    """is there a path that starts right after CFG position src, arrives at position dst, and
+    executes none of the positions in `kills` on the way?  (positions are (block, index))"""
+    kb = {}
+    for (b, i) in kills:
+        kb.setdefault(b, []).append(i)
+    sb, si = src
+    db, di = dst
+
+    def first_kill_after(b, i):
+        ks = [k for k in kb.get(b, ()) if k > i]
+        return min(ks) if ks else None
+    # within the source block
+    k = first_kill_after(sb, si)
+    if sb == db and si < di and (k is None or k >= di):
+        return True
+    if k is not None:
+        return False          # a kill executes before the block is left
+    seen = set()
+    st = [s for s in fn.blocks[sb].succs if s is not None and s >= 0]
+    while st:
+        b = st.pop()
+        if b in seen:
+            continue
+        seen.add(b)
+        k = first_kill_after(b, -1)
+        if b == db and (k is None or k >= di):
+            return True
+        if k is not None:
+            continue
+        for s in fn.blocks[b].succs:
+            if s is not None and s >= 0:
+                st.append(s)
+    return False
